@@ -186,6 +186,8 @@ func consumeMapOfMessage(b []byte, mapv reflect.Value, wtyp protowire.Type, mapi
 	var (
 		key = mapi.keyZero
 		val = reflect.New(f.mi.GoReflectType.Elem())
+
+		seenValue bool
 	)
 	for len(b) > 0 {
 		num, wtyp, n := protowire.ConsumeTag(b)
@@ -218,11 +220,12 @@ func consumeMapOfMessage(b []byte, mapv reflect.Value, wtyp protowire.Type, mapi
 			}
 			var o unmarshalOutput
 			o, err = f.mi.unmarshalPointer(v, pointerOfValue(val), 0, opts)
-			if o.initialized {
-				// Consider this map item initialized so long as we see
-				// an initialized value.
-				out.initialized = true
-			}
+			// Consider this map item initialized so long as we see an
+			// initialized value. All occurrences of the value are merged
+			// into one message, so every one of them has to be initialized:
+			// a later one may add an uninitialized submessage.
+			out.initialized = o.initialized && (out.initialized || !seenValue)
+			seenValue = true
 		}
 		if err == errUnknown {
 			n = protowire.ConsumeFieldValue(num, wtyp, b)
